@@ -29,6 +29,7 @@ fn alphabet(unsol: bool) -> Vec<Ev> {
         Ev::WriteRestart(false),
         Ev::WriteRestart(true),
         Ev::Reconnect,
+        Ev::Replace,
         Ev::AppIin(0),
         Ev::AppIin(3),
     ];
